@@ -129,6 +129,15 @@ def analyse(pid, ins, impl, model, pred):
                 if delivered != expected[:len(delivered)]:
                     first_viol = k
                     why_viol = "payloads handed to the reader %s are not a prefix of the valid payloads received %s (lost, duplicated, altered or reordered)" % (delivered[-3:], expected[:len(delivered)][-3:])
+            if pid == "C09" and first_viol is None and ev == "msg":
+                # data level: a stored SHIP id admits exactly that id
+                hm = re.search(r"stored=([0-9a-f]*)", lines[0])
+                am = re.search(r" acc=meth:id:([0-9a-f]*)", lines[k])
+                obs = il.split(" | ")[0].split()
+                if hm and hm.group(1) and am is not None and am.group(1) != hm.group(1) and ("SETUP" in obs or "S37" in obs or "S38" in obs):
+                    first_viol = k
+                    why_viol = "the application stored SHIP id %r for this SKI, the peer presented %r in its access methods, and the handshake went on to approval / set up the remote device" % (
+                        bytes.fromhex(hm.group(1)).decode("latin1"), bytes.fromhex(am.group(1)).decode("latin1"))
             il_c = il.replace(" final=1", "")
             if il_c != ml and first_div is None:
                 if project(pid, il_c) != project(pid, ml):
